@@ -280,11 +280,38 @@ def rule_group(ctx, prop):
     return rep
 
 
+
+def rule_pairs(ctx, prop):
+    """the sorter moves (statement, semicolon) pairs as a whole: it never builds such a pair itself"""
+    rep = Report(prop, "R-SORT(pairs)", "sort_requires only re-orders the block's (Stmt, Option<semicolon>) pairs - every pair "
+                                        "in its output is a clone of an input pair, none is assembled from parts")
+    for cfg, prog in ctx.programs.items():
+        fns = [f for f in prog.fns("stylua_lib") if f.path.startswith("sort_requires::sort_requires")]
+        if not rep.anchor(bool(fns), "sort_requires", cfg):
+            continue
+        n = 0
+        for f in fns:
+            for b, si_, s in f.stmts():
+                if s["k"] == "assign" and s["rv"]["k"] == "agg" and "tuple" in s["rv"]:
+                    ty = f.local_ty(s["dst"]["l"])
+                    n += 1
+                    if re.match(r"^\(full_moon::ast::Stmt, std::option::Option<full_moon::tokenizer::TokenReference>\)$", ty):
+                        parts = []
+                        for o in s["rv"]["ops"]:
+                            parts.append("const" if is_const(o) else ",".join(sorted(c.split("::")[-1] for c in prov_calls(provenance(f, o)))) or "value")
+                        rep.violation(f"{f.key} statement-pair-assembled parts={'|'.join(parts)[:60]}",
+                                      f"{f.path} builds a (Stmt, semicolon) pair itself ({parts}) instead of moving the block's own pair: "
+                                      f"the semicolon token of a sorted require - and every comment attached to it - is dropped or "
+                                      f"replaced", f.loc(s.get("sp")), cfg)
+            rep.inst(f"{f.key} builds no (Stmt, semicolon) pair", None, cfg, ok=True)
+        rep.floor("functions of the sorter scanned", len(fns), 3, cfg)
+    return rep
+
 def run(ctx):
     import r_exh
     sub = Report("C12", "R-GROUPFILL", "require groups only receive LocalAssignment statements")
     for cfg, prog in ctx.programs.items():
         r_exh._groupfill(prog, sub, cfg)
-    return [rule_sort(ctx, "C12"), rule_group(ctx, "C12"), r_skip.rule_toggle(ctx, "C12"), r_skip.rule_sort_guard(ctx, "C12"), r_skip.rule_node_type(ctx, "C12"), sub]
+    return [rule_pairs(ctx, "C12"), rule_sort(ctx, "C12"), rule_group(ctx, "C12"), r_skip.rule_toggle(ctx, "C12"), r_skip.rule_sort_guard(ctx, "C12"), r_skip.rule_node_type(ctx, "C12"), sub]
 
 
